@@ -125,6 +125,10 @@ func LoadProgram(cfg Config) (*Program, error) {
 	if err := addOverlay(filepath.Join(cfg.HarnessDir, "mqtttest"), filepath.Join(cfg.RepoDir, "mqtttest")); err != nil {
 		return nil, err
 	}
+	// the harness API is shared: a copy under the other package name
+	if api, err := os.ReadFile(filepath.Join(cfg.HarnessDir, "zz_verif_api.go")); err == nil {
+		overlay[filepath.Join(cfg.RepoDir, "mqtttest", "zz_verif_api.go")] = []byte(strings.Replace(string(api), "\npackage mqtt\n", "\npackage mqtttest\n", 1))
+	}
 	pcfg := &packages.Config{
 		Mode:       packages.LoadAllSyntax,
 		Dir:        cfg.RepoDir,
